@@ -1,7 +1,7 @@
 (* C14 property theorems: ONLY statements closed by `exact`, each followed by Print Assumptions;
    plus non-vacuity Examples.  Model: C14_Model.v (transcription of dune/common/std/*.hh), spec: C14_Spec.v. *)
-From Coq Require Import List ZArith Bool.
-From DuneV Require Import C14_Model C14_Spec C14_Proofs C14_Proofs_Access.
+From Coq Require Import List ZArith Bool Permutation.
+From DuneV Require Import C14_Model C14_Spec C14_Proofs C14_Proofs_Access C14_Proofs_Perm.
 Import ListNotations.
 Local Open Scope Z_scope.
 
@@ -174,9 +174,29 @@ Theorem C14_span_at : forall s i,
 Proof. exact c14_span_at_ok. Qed.
 Print Assumptions C14_span_at.
 
-(* Not proved (would be C14_stride_exhaustive_iff): for a unique strided mapping, is_exhaustive() = true iff the
-   offsets fill [0, required_span_size).  The "if" direction needs a pigeonhole argument over the enumeration;
-   it is checked by the oracle of the correspondence on every strided case instead. *)
+(* --- a strided mapping is unique as soon as SOME ordering of the dimensions satisfies the chain condition
+       (arbitrary stride permutations, padded or not) *)
+Theorem C14_injective_perm : forall E St i j ES', length St = length E ->
+  c14_valid i E -> c14_valid j E ->
+  Permutation (combine E St) ES' -> c14_stride_chain ES' ->
+  c14_map_stride St i = c14_map_stride St j -> i = j.
+Proof. exact c14_stride_injective_perm. Qed.
+Print Assumptions C14_injective_perm.
+
+(* --- is_exhaustive() of a unique strided mapping (strides >= 0, non-empty index space) is true exactly when the
+       offsets fill [0, required_span_size); on an empty index space it is false (second statement) *)
+Theorem C14_stride_exhaustive_iff : forall E St, E <> [] -> c14_nonneg E -> 0 < c14_prod E ->
+  Forall (fun s => 0 <= s) St ->
+  (forall i j, c14_valid i E -> c14_valid j E -> c14_map_stride St i = c14_map_stride St j -> i = j) ->
+  (c14_is_exhaustive_stride E St = true <->
+   forall k, 0 <= k < c14_span_size_stride E St -> exists idx, c14_valid idx E /\ c14_map_stride St idx = k).
+Proof. exact c14_stride_exhaustive_iff. Qed.
+Print Assumptions C14_stride_exhaustive_iff.
+
+Theorem C14_stride_exhaustive_empty :
+  c14_is_exhaustive_stride [0; 3] [3; 1] = false /\ c14_span_size_stride [0; 3] [3; 1] = 0.
+Proof. exact c14_stride_exhaustive_empty. Qed.
+Print Assumptions C14_stride_exhaustive_empty.
 
 (* --- non-vacuity *)
 Example C14_ex_valid : c14_valid [1; 2; 3] [2; 3; 4] /\ c14_map_right [2; 3; 4] [1; 2; 3] = 23 /\ c14_map_left [2; 3; 4] [1; 2; 3] = 23.
@@ -197,3 +217,6 @@ Example C14_ex_convert_cross :
   c14_extents_list [Some 2; None] (c14_extents_convert [Some 2; None] [None; Some 4] [2]) = [2; 4] /\
   c14_extents_list [None; None; Some 4] (c14_extents_convert [None; None; Some 4] [None; Some 3; None] [2; 4]) = [2; 3; 4].
 Proof. exact c14_ex_convert_cross. Qed.
+Example C14_ex_perm : Permutation (combine [2; 3; 5] [15; 1; 3]) [(2, 15); (5, 3); (3, 1)] /\
+  c14_stride_chain [(2, 15); (5, 3); (3, 1)].
+Proof. exact c14_ex_perm. Qed.
